@@ -82,7 +82,12 @@ func behaviourClass(steps []step, verdictKey string) string {
 			if s.str("b") != "main" {
 				feat["branch"] = true
 			}
-		case "stage", "stash", "switch", "serverloses", "worktree", "otherremote":
+		case "stash":
+			feat["stash"] = true
+			if k := s.str("kind"); k != "" && k != "worktree" {
+				feat["stash:"+k] = true // the object is only in the stash's index / untracked-files commit
+			}
+		case "stage", "switch", "serverloses", "worktree", "otherremote":
 			feat[s.str("a")] = true
 		default:
 			nver++
